@@ -147,7 +147,16 @@ fn render_section(paths: &[Vec<String>], f: &Fmt, salt: u64) -> Vec<String>
         {
             let i = leafs[(salt as usize) % leafs.len()];
             let l = lines[i].clone();
-            lines.insert(i + 1, l);
+            if !f.bundle && lines.len() >= 2 && salt % 3 != 0
+            {
+                // a flat list: the repetition may stand anywhere, not only next to the original
+                let at = ((salt / 3) as usize) % (lines.len() + 1);
+                lines.insert(at, l);
+            }
+            else
+            {
+                lines.insert(i + 1, l);
+            }
         }
     }
     lines
